@@ -571,3 +571,5 @@ def run(ctx):
     _b.check_updates(ctx, 'C12.RU', 'C12')
     from .. import boundaries as _b
     _b.check_amounts(ctx, 'C12.RA', 'C12')
+    from .. import boundaries as _b
+    _b.check_counts(ctx, 'C12.RQ', 'C12')
